@@ -1,6 +1,7 @@
 """Expression layer: C09-C13, C27, C28."""
 from .props import Prop, reg, has, nothas
 from . import genexpr as gx
+from . import genbasicblock as _gb
 
 reg(Prop("C09",
          [("fold", gx.g_fold, 5), ("fold_closed", gx.g_fold_closed, 2), ("fold_memaddr", gx.g_purge_memaddr, 1),
@@ -36,9 +37,11 @@ reg(Prop("C12",
          3000, 150000))
 
 reg(Prop("C13",
-         [("poss", gx.g_poss, 1)],
+         [("poss", gx.g_poss, 6), ("bbjumps", _gb.g_bbjumps, 1)],
          has("multi"),
-         "random trees with 40% conditionals per level; non-trivial = more than one alternative enumerated",
+         "random trees with 40% conditionals per level; stream bbjumps: jumps() of internal/deps/instruction.go (Possibilities, "
+         "folding, filtering of the fall-through address) on instruction-pointer effects with conditionals and symbolic "
+         "targets; non-trivial = more than one alternative enumerated",
          2000, 100000))
 
 reg(Prop("C27",
